@@ -136,6 +136,62 @@ def run_limited(cmd, timeout, mem_gb, cwd=None, stdout=None):
     return p.returncode, out, err, to, time.time() - t0
 
 
+def run_portfolio(gb, flags, job, timeout, jout, tier):
+    import threading
+    procs, done, lock = {}, [], threading.Lock()
+    t0 = time.time()
+
+    def pre():
+        os.setsid()
+        lim = int((12 if tier == 'thorough' else 6) * (1 << 30))
+        resource.setrlimit(resource.RLIMIT_AS, (lim, lim))
+
+    def go(be):
+        cmd = ['cbmc', gb] + flags + BACKENDS[be] + ['--json-ui'] + (['--trace'] if job.get('trace', True) else [])
+        out = jout + '.' + be
+        with open(out, 'wb') as fo:
+            p = subprocess.Popen(cmd, stdout=fo, stderr=subprocess.PIPE, preexec_fn=pre)
+            with lock:
+                procs[be] = p
+            _, err = p.communicate()
+        with lock:
+            done.append((be, p.returncode, err, cmd, out))
+    ths = [threading.Thread(target=go, args=(be,)) for be in ('sat', 'kissat')]
+    for t in ths:
+        t.start()
+    winner = None
+    while time.time() - t0 < timeout:
+        with lock:
+            ok = [d for d in done if d[1] in (0, 10)]
+            alldone = len(done) == 2
+        if ok:
+            winner = ok[0]
+            break
+        if alldone:
+            break
+        time.sleep(0.5)
+    with lock:
+        for be, p in procs.items():
+            try:
+                os.killpg(p.pid, signal.SIGKILL)
+            except (ProcessLookupError, PermissionError):
+                pass
+    for t in ths:
+        t.join()
+    dt = time.time() - t0
+    if winner is None:
+        with lock:
+            any_done = done[0] if done else None
+        if any_done and time.time() - t0 < timeout:
+            be, rc, err, cmd, out = any_done
+            os.replace(out, jout)
+            return rc, err, False, dt, be, cmd
+        return None, b'', True, dt, 'none', ['cbmc', gb] + flags
+    be, rc, err, cmd, out = winner
+    os.replace(out, jout)
+    return rc, err, False, dt, be, cmd
+
+
 BACKENDS = {
     'sat': [],
     'kissat': ['--external-sat-solver', 'kissat'],
@@ -187,20 +243,28 @@ def run_job(u, job, cfile, outdir, tier='quick', extra_defs=(), tag=''):
             gb1 = gb0
     backend = job.get('backend', 'sat')
     flags = list(CHECK_FLAGS)
+    if job.get('canary_run'):
+        # vacuity canary: only assertions / contract clauses matter, skip the generic checks
+        flags = ['--no-standard-checks', '--unwinding-assertions']
     for fl in job.get('drop_flags', []):
         if fl in flags:
             flags.remove(fl)
     flags += job.get('flags', [])
     if tier == 'thorough':
         flags += job.get('thorough_flags', [])
-    cmd = ['cbmc', gb1] + flags + BACKENDS[backend] + ['--json-ui']
-    if job.get('trace', True):
-        cmd += ['--trace']
-    res['cmds'].append(' '.join(cmd))
     timeout = job.get('timeout', 300) * (3 if tier == 'thorough' else 1)
     jout = os.path.join(outdir, name + '.json')
-    with open(jout, 'wb') as fo:
-        rc, _, err, to, dt = run_limited(cmd, timeout, 12 if tier == 'thorough' else 6, stdout=fo)
+    if backend == 'portfolio':
+        # SAT run times on the array-heavy units vary 5x with symbol order: race minisat against kissat
+        rc, err, to, dt, backend, cmd = run_portfolio(gb1, flags, job, timeout, jout, tier)
+        res['backend'] = 'portfolio:' + backend
+    else:
+        cmd = ['cbmc', gb1] + flags + BACKENDS[backend] + ['--json-ui']
+        if job.get('trace', True):
+            cmd += ['--trace']
+        with open(jout, 'wb') as fo:
+            rc, _, err, to, dt = run_limited(cmd, timeout, 12 if tier == 'thorough' else 6, stdout=fo)
+    res['cmds'].append(' '.join(cmd))
     res['solver_s'] = round(dt, 2)
     if to:
         res['status'] = 'timeout'
